@@ -66,9 +66,13 @@ inductive Ev where
 def FreedOnce (t : List Ev) : Prop :=
   ∀ id size, Ev.malloc id size ∈ t → t.count (Ev.free id) = 1
 
+def Ev.isMallocOf (id : Nat) : Ev → Bool
+  | .malloc i _ => i == id
+  | _ => false
+
 /-- allocation ids are not reused -/
 def FreshIds (t : List Ev) : Prop :=
-  ∀ id, (t.filter (fun e => match e with | .malloc i _ => i == id | _ => false)).length ≤ 1
+  ∀ id, (t.filter (Ev.isMallocOf id)).length ≤ 1
 
 /-- after the release of an allocation it is neither read, written nor released again -/
 def NoUseAfterFree (t : List Ev) : Prop :=
